@@ -102,12 +102,16 @@ CLAIMS.update({
  'C07': ("proof", "Proof, partial. Proved about the typechecker model (tied by the tc suite: identical typed trees / error class on generated "
          "programs, type mutations and ~300 repository test snippets): coercion lattice and explicit-cast table equal the documented ones on "
          "all 15 scalar/array types; literal shrinkability and its loss on substitution and explicit cast; overload resolution = exact "
-         "match, else first declared overload all arguments are coercible to (resolve_spec); narrowing and const-array rejections. "
+         "match, else first declared overload all arguments are coercible to (resolve_spec); narrowing and const-array rejections; "
+         "type soundness accepted_programs_are_well_typed (induction over parse trees, every source text): whatever parser and typechecker "
+         "accept has a typed tree obeying the rule predicate wtProg (exact argument/parameter types of a declared overload, int/bool operands, "
+         "mutable assignment targets, return agreement, scalar non-empty array elements, cast table, no nested arrays). "
          "Completeness w.r.t. a declarative typing relation is not proved; 72 rule programs and 1920 overload calls are executed.",
          "machine-checked proof (Lean 4) about a hand-written model + typed-tree correspondence", "6 C07"),
  'C10': ("proof", "Proof, partial. The front-end models are total Lean functions tied to the implementation on error class and position; "
          "parse_never_runs_out_of_fuel (induction over the 25 grammar functions, every source text): the parser model's explicit fuel is never "
-         "exhausted, so parse_total is three-way: tree, located lexer error or located parser error; "
+         "exhausted, so parse_total is three-way: tree, located lexer error or located parser error; the typechecker model is total and its "
+         "cast/Volatile assertions cannot fire (C07 type soundness, volatile_initialiser_means_const_array); "
          "string/character data can never make the output unassemblable (escape round trip). NOT MODELLED (runtime): exit status, stderr and "
          "output file of the hidc process are observed on the real command-line tool; absence of internal exceptions on four input "
          "streams x option combinations is validated in-process, every accepted output is assembled by the Lean assembler.",
